@@ -67,6 +67,8 @@ class Ctx:
         self.kf_hits = collections.Counter()
         self.violations = []
         self.failing = None
+        self.failures = []                              # every failing evaluation, in order
+        self.log = []                                   # every case evaluated so far, in order (state left behind in the library)
         self.abort = False
         self.inconclusive = []
         self.exhaustive_domains = []
@@ -123,6 +125,9 @@ class Ctx:
             return None
         ev = eval_case or self.part.eval_case
         self.evaluations += 1
+        before = len(self.log)
+        if before < 50000:
+            self.log.append(case)
         try:
             info = self._guarded(ev, case)
         except Violation as v:
@@ -130,7 +135,9 @@ class Ctx:
             if fid:
                 self.kf_hits[fid] += 1
                 return None
-            self.failing = {"case": case, "tag": v.tag, "msg": v.msg}
+            self.failing = {"case": case, "tag": v.tag, "msg": v.msg, "before": before}
+            if len(self.failures) < 200:
+                self.failures.append(self.failing)
             raise
         except CaseTimeout:
             # confirm once with a doubled budget, then report without shrinking (a hang cannot be shrunk)
@@ -247,7 +254,14 @@ def run_part(ctx, n):
     except Violation:
         if ctx.failing is None:
             raise
-        ctx.violations.append(ctx.failing)
+        f = ctx.failing
+        if part.kind == "given" and ctx.failures and f["case"] != ctx.failures[0]["case"] and not _fresh_fails(ctx.prop, part, [], f["case"]) \
+                and _fresh_fails(ctx.prop, part, [], ctx.failures[0]["case"]):
+            # the shrunk case only fails on top of state left by earlier evaluations; the first failure is self-contained: report that one
+            f = ctx.failures[0]
+        f = dict(f)
+        f.pop("before", None)
+        ctx.violations.append(f)
     except Flaky:
         # The failure did not reproduce on Hypothesis' own re-execution. Decide by direct replay.
         f = ctx.failing
@@ -264,13 +278,89 @@ def run_part(ctx, n):
             f["msg"] += f" [non-deterministic: failed {bad}/3 direct replays]"
             ctx.violations.append(f)
         else:
-            ctx.inconclusive.append({"case": f["case"], "why": "failure not reproducible on direct replay"})
+            # Not a function of that case alone in this process. Hypothesis may have "simplified" the first failure into a case that only
+            # failed because of state the earlier evaluations left behind in the library. Decide in FRESH processes, starting from the
+            # earliest failure seen: (1) that case alone, (2) that case after the cases evaluated before it (history then reduced).
+            f0 = ctx.failures[0] if ctx.failures else f
+            hist = None
+            found = False
+            if _fresh_fails(ctx.prop, part, [], f0["case"]):
+                found = True
+            else:
+                prior = ctx.log[:f0.get("before", 0)]
+                k = 1
+                while prior:
+                    seq = prior[-k:]
+                    if _fresh_fails(ctx.prop, part, seq, f0["case"]):
+                        hist = seq
+                        break
+                    if k >= len(prior) or k >= 1024:
+                        break
+                    k *= 4
+                if hist is not None:
+                    budget, i = 24, 0
+                    while i < len(hist) and budget > 0 and len(hist) > 1:
+                        cand = hist[:i] + hist[i + 1:]
+                        budget -= 1
+                        if _fresh_fails(ctx.prop, part, cand, f0["case"]):
+                            hist = cand
+                        else:
+                            i += 1
+                    found = len(hist) <= 12 or _fresh_fails(ctx.prop, part, hist[-12:], f0["case"])
+                    hist = hist[-12:]
+            if found:
+                f = dict(f0)
+                f.pop("before", None)
+                if hist:
+                    f["history"] = hist
+                    f["msg"] += f" [only after {len(hist)} other case(s) evaluated earlier in the same process: state leaks between calls]"
+                ctx.violations.append(f)
+            else:
+                ctx.inconclusive.append({"case": f["case"], "why": "failure not reproducible on direct replay"})
     except BaseException as e:  # noqa: BLE001
         # Hypothesis may wrap the violation (ExceptionGroup / notes); fall back on the recorded case
         if ctx.failing is not None and _mentions_violation(e):
             ctx.violations.append(ctx.failing)
         else:
             raise
+
+
+def _fresh_fails(prop, part, history, case):
+    """replay (history, case) in a fresh interpreter; True when the case violates the property there"""
+    from .core import jdefault
+    d = os.path.join(OUT, ".cache", "confirm") if OUT == HERE else os.path.join(OUT, "confirm")
+    os.makedirs(d, exist_ok=True)
+    path = os.path.join(d, f"confirm-{os.getpid()}.json")
+    with open(path, "w") as fh:
+        json.dump({"property": prop, "part": part.name, "case": case, "history": history}, fh, default=jdefault)
+    try:
+        p = subprocess.run([sys.executable, "-u", "-m", "vf.runner", prop, "--replay", path], cwd=HERE, env=dict(os.environ),
+                           capture_output=True, text=True, timeout=1800)
+        return p.returncode == 1 and "VIOLATION" in p.stdout
+    except subprocess.TimeoutExpired:
+        return False
+    finally:
+        try:
+            os.remove(path)
+        except OSError:
+            pass
+
+
+def _fails_after(part, history, case):
+    """evaluate `history` (outcomes ignored) and then `case` in this process; True when `case` then violates the property"""
+    from .core import Violation
+    for h in history:
+        try:
+            part.eval_case(h)
+        except BaseException:  # noqa: BLE001
+            pass
+    try:
+        part.eval_case(case)
+    except Violation:
+        return True
+    except Exception as e:  # noqa: BLE001
+        return _from_library(e)
+    return False
 
 
 def _mentions_violation(e):
@@ -318,6 +408,14 @@ def worker(jobfile):
     os.replace(tmp, job["out"])
 
 
+def _run_history(part, rec):
+    for h in rec.get("history", ()):
+        try:
+            part.eval_case(h)
+        except BaseException:  # noqa: BLE001
+            pass
+
+
 def replay_files(prop, mod, files):
     """Regression tier: committed replays. reg-* must pass; kf-* must still fail as the listed finding."""
     from .core import Violation, CaseTimeout
@@ -334,6 +432,7 @@ def replay_files(prop, mod, files):
         base = os.path.basename(path)
         out["evaluations"] += 1
         out["classes"]["replayed"] = out["classes"].get("replayed", 0) + 1
+        _run_history(part, rec)
         try:
             ctx._guarded(part.eval_case, rec["case"])
             failed = None
@@ -506,6 +605,8 @@ def run_check(prop, tier, seed, only=None, budget=None, jobs_max=None):
         os.makedirs(vdir, exist_ok=True)
         rec = {"property": prop, "part": v["part"], "case": v["case"], "tag": v["tag"], "message": v["msg"],
                "seed": seed, "tier": tier}
+        if v.get("history"):
+            rec["history"] = v["history"]       # cases to evaluate first, in the same process
         path = os.path.join(vdir, f"viol-{v['part']}-{digest(v['case'])}.json")
         with open(path, "w") as f:
             json.dump(rec, f, indent=1, default=jdefault)
@@ -560,6 +661,7 @@ def do_replay(prop, path):
         rec = json.load(f)
     part = next(p for p in mod.PARTS if p.name == rec["part"])
     ctx = Ctx(prop, mod, part, "quick", 0, 0, 1)
+    _run_history(part, rec)
     try:
         ctx._guarded(part.eval_case, rec["case"])
     except Violation as v:
